@@ -1054,6 +1054,13 @@ def gen_pspec(rng):
 
 
 def param_stream(ctx, use_driver=True):
+    import warnings
+    with warnings.catch_warnings():
+        warnings.simplefilter("ignore")          # numpy: "Degrees of freedom <= 0" on var(ddof=1) of one element
+        _param_stream(ctx, use_driver)
+
+
+def _param_stream(ctx, use_driver=True):
     for label, pspec in param_specs():
         check_pcase(ctx, pspec, use_driver, label.split("(")[0].split("[")[0])
         if any(f.witness is not None for f in ctx.failures) or ctx.infra_errors:
